@@ -695,6 +695,10 @@ class Class(Node):
                                 # Store result for next lookup: the reference under which
                                 # the class was found, not the last one that was tried
                                 self.imports[component_ref.name] = found_comp_ref
+                                if component_ref.child:
+                                    # The import only resolves the first name of a
+                                    # dotted reference; look up the rest inside it
+                                    return c._find_class(component_ref.child[0], False)
                                 return c
                             else:
                                 raise ClassNotFoundError
